@@ -342,7 +342,9 @@ fn programs(tier: Tier) -> (Vec<E>, J) {
             all.push(E::Obj(vec![(KeyForm::Lit("b"), E::Lit("1")), (key(), E::Expr)], false));
             all.push(E::Obj(vec![(key(), E::Arr(vec![E::True], false)), (other(), E::Obj(vec![(key(), E::Null)], false)), (KeyForm::Paren("a"), E::Str("s"))], true));
             all.push(E::Arr(vec![E::Obj(vec![(key(), E::Obj(vec![(other(), E::Lit("-2"))], true)), (key(), E::False)], false)], false));
-            pumped += 5;
+            // the same shape at three levels (a key, then the keys inside its value, then the next key)
+            all.push(E::Obj(vec![(key(), E::Obj(vec![(key(), E::Arr(vec![E::Obj(vec![(key(), E::True)], false)], false)), (key(), E::Null)], false)), (key(), E::Lit("1"))], false));
+            pumped += 6;
         }
     }
     for depth in [5usize, 8, 16, 32, 64] {
@@ -389,8 +391,19 @@ fn write_workspace(dir: &Path, progs: &[E], ncrates: usize) -> std::io::Result<V
             p.rust(&mut r);
             let mut t = String::new();
             p.json(&mut t);
-            let n_once = r.matches("once(").count();
-            writeln!(src, "    progs.push(({}, std::panic::catch_unwind(|| {{ let t0 = ticks(); let v = json!({}); let n = ticks() - t0; if n != {n_once} {{ panic!(\"the {n_once} side-effecting key expression(s) of this program were evaluated {{}} time(s) in all\", n) }} v }}), {:?}));", lo + j, r, t).unwrap();
+            // the side-effecting key expressions are numbered in written order; each has to be
+            // evaluated exactly once, and in that order (a key before the value it introduces)
+            let mut numbered = String::new();
+            let mut n_once = 0usize;
+            let mut rest = r.as_str();
+            while let Some(at) = rest.find("once(") {
+                numbered.push_str(&rest[..at]);
+                numbered.push_str(&format!("once_at({n_once}, "));
+                n_once += 1;
+                rest = &rest[at + 5..];
+            }
+            numbered.push_str(rest);
+            writeln!(src, "    progs.push(({}, std::panic::catch_unwind(|| {{ let _ = ticks(); let v = json!({}); let log = ticks(); if log != (0..{n_once}).collect::<Vec<usize>>() {{ panic!(\"the {n_once} side-effecting key expression(s) of this program, numbered in written order, were evaluated in the order {{:?}}\", log) }} v }}), {:?}));", lo + j, numbered, t).unwrap();
         }
         src.push_str("    for (i, v, text) in progs {\n        let v = match v { Ok(v) => v, Err(p) => { let m = p.downcast_ref::<String>().cloned().or_else(|| p.downcast_ref::<&str>().map(|s| s.to_string())).unwrap_or_default(); println!(\"PANIC {i} {}\", m.replace('\\n', \" \")); continue; } };\n        match Value::parse_str(text) {\n            Ok((w, _)) => { if v == w { println!(\"OK {i}\"); } else { println!(\"BAD {i} macro built {} but the text parses to {}\", v, w); } }\n            Err(e) => println!(\"TEXT {i} {e}\"),\n        }\n    }\n}\n");
         std::fs::write(cdir.join("src/main.rs"), src)?;
@@ -402,7 +415,7 @@ fn write_workspace(dir: &Path, progs: &[E], ncrates: usize) -> std::io::Result<V
 
 /// The first lines of every generated crate (compile errors are mapped back to programs through
 /// their line number: program j of a crate is on line HEADER_LINES + 1 + j).
-const HEADER: &str = "#![recursion_limit = \"16384\"]\n#![allow(unused, clippy::all)]\nuse json_syntax::{json, object::Key, Parse, Value};\nfn tail(s: &str) -> String { s[1..].to_string() }\nfn pick(_: &str, b: &str) -> String { b.to_string() }\nthread_local! { static TICKS: std::cell::Cell<usize> = std::cell::Cell::new(0); }\nfn ticks() -> usize { TICKS.with(|t| t.get()) }\nfn once(k: &str) -> String { TICKS.with(|t| t.set(t.get() + 1)); k.to_string() }\nfn main() {\n    let KA: Key = Key::from(\"a\"); let KB: Key = Key::from(\"b\");\n    std::panic::set_hook(Box::new(|_| {})); let mut progs: Vec<(usize, std::thread::Result<Value>, &str)> = Vec::new();\n";
+const HEADER: &str = "#![recursion_limit = \"16384\"]\n#![allow(unused, clippy::all)]\nuse json_syntax::{json, object::Key, Parse, Value};\nfn tail(s: &str) -> String { s[1..].to_string() }\nfn pick(_: &str, b: &str) -> String { b.to_string() }\nthread_local! { static TICKS: std::cell::RefCell<Vec<usize>> = std::cell::RefCell::new(Vec::new()); }\nfn ticks() -> Vec<usize> { TICKS.with(|t| std::mem::take(&mut *t.borrow_mut())) }\nfn once_at(i: usize, k: &str) -> String { TICKS.with(|t| t.borrow_mut().push(i)); k.to_string() }\nfn main() {\n    let KA: Key = Key::from(\"a\"); let KB: Key = Key::from(\"b\");\n    std::panic::set_hook(Box::new(|_| {})); let mut progs: Vec<(usize, std::thread::Result<Value>, &str)> = Vec::new();\n";
 const HEADER_LINES: usize = 11;
 
 fn repo() -> String {
